@@ -20,12 +20,13 @@ ASSUMPTIONS = ["heuristics are finite (nodes that cannot reach a goal get 1+sum(
 def gen_graph(rng, n_max):
     n = rng.randint(1, n_max)
     labels_kind = rng.choice(["int", "str", "tuple"])
+    # label pools that usually contain a FALSY label (0, "", ()): a node is a node whatever bool() says about its name
     if labels_kind == "int":
-        nodes = rng.sample(range(50), n)
+        nodes = rng.sample(range(n + 3), n)
     elif labels_kind == "str":
-        nodes = ["n%d" % i for i in rng.sample(range(50), n)]
+        nodes = ["n%d" % i if i else "" for i in rng.sample(range(n + 3), n)]
     else:
-        nodes = rng.sample([(x, y) for x in range(5) for y in range(5)], n)
+        nodes = rng.sample([()] * 1 + [(x, y) for x in range(3) for y in range(3)], n)
     acts = ["a", "b", "c", "d"][:rng.randint(1, 4)]
     dens = rng.choice([0.3, 0.6, 1.0])
     edges = {}
